@@ -2,7 +2,7 @@
    context of any unit, nor the events of any unit, nor the flag: every reordering of a schedule
    (Model/CallbacksEager.v [reorder]) serves every unit exactly what the schedule serves it.
    Hence the engine theorems hold for the executions of the eager task collection too. *)
-From Coq Require Import List Arith Lia Bool NArith.
+From Coq Require Import List Arith Lia Bool NArith Permutation.
 From Eino Require Import Base.Util Base.GoSlice Model.Callbacks Model.CallbacksSched Model.CallbacksEager.
 From Eino Require Import Proofs.CallbacksSlice Proofs.Callbacks Proofs.CallbacksEngine Proofs.CallbacksSched.
 Import ListNotations.
@@ -291,4 +291,300 @@ Proof.
   inversion Hb as [| |a' b' ta' tb' Ha' Hb'|]; subst.
   destruct (traces_seq_last _ _ _ Hb') as (tc & ->).
   eexists (ta ++ ta' ++ tc), _. now rewrite <- !app_assoc.
+Qed.
+
+(* ---------------------------------------------------------------- every linearisation is a reordering *)
+
+Lemma existsb_eqb_In u l : existsb (N.eqb u) l = true <-> In u l.
+Proof.
+  rewrite existsb_exists. split.
+  - intros (x & Hx & E). apply N.eqb_eq in E. now subst.
+  - intros H. exists u. split; auto. apply N.eqb_refl.
+Qed.
+
+Lemma indepb_indep x y : indepb x y = true -> indep x y.
+Proof.
+  unfold indepb, indep. rewrite !andb_true_iff, negb_true_iff, N.eqb_neq. intros ((NU & Cx) & Cy).
+  split; auto. split.
+  - intros u E. rewrite E in Cx. rewrite negb_true_iff in Cx. intros I. apply existsb_eqb_In in I. congruence.
+  - intros u E. rewrite E in Cy. rewrite negb_true_iff in Cy. intros I. apply existsb_eqb_In in I. congruence.
+Qed.
+
+Lemma before_in_r {A} (l : list A) x y : before l x y -> In y l.
+Proof. induction 1; simpl; auto. Qed.
+
+Lemma before_in_l {A} (l : list A) x y : before l x y -> In x l.
+Proof. induction 1; simpl; auto. Qed.
+
+Lemma before_insert {A} (a b : list A) y x z : before (a ++ b) x z -> before (a ++ y :: b) x z.
+Proof.
+  induction a as [|h a IH]; simpl; intros H.
+  - now apply bf_skip.
+  - inversion H; subst.
+    + apply bf_here. rewrite in_app_iff in *. simpl. tauto.
+    + apply bf_skip. auto.
+Qed.
+
+Lemma before_split {A} (a b : list A) x y : In x a -> before (a ++ y :: b) x y.
+Proof.
+  induction a as [|h a IH]; simpl; intros H; [contradiction|].
+  destruct H as [->|H].
+  - apply bf_here. rewrite in_app_iff. simpl. auto.
+  - apply bf_skip. auto.
+Qed.
+
+Lemma reorder_trans a b c : reorder a b -> reorder b c -> reorder a c.
+Proof. intros H1 H2. induction H2; auto. apply RO_swap; auto. Qed.
+
+Lemma reorder_cons y l t : reorder l t -> reorder (y :: l) (y :: t).
+Proof.
+  induction 1 as [l|l a x z b Hr IH I]; [apply RO_refl|].
+  apply (RO_swap (y :: l) (y :: a) x z b); auto.
+Qed.
+
+Lemma bubble l y a : forall b,
+  (forall x, In x a -> indep x y) -> reorder l (a ++ y :: b) -> reorder l (y :: a ++ b).
+Proof.
+  induction a as [|x a IH] using rev_ind; intros b I H; simpl in *; auto.
+  rewrite <- app_assoc in H. simpl in H.
+  assert (H' : reorder l (a ++ y :: x :: b)).
+  { apply RO_swap; auto. apply I. apply in_or_app. right. simpl. auto. }
+  specialize (IH (x :: b) (fun z Hz => I z (in_or_app _ _ _ (or_introl Hz))) H').
+  now rewrite <- app_assoc.
+Qed.
+
+Theorem linearisation_reorder t : forall c, NoDup c -> linearisation c t -> reorder c t.
+Proof.
+  induction t as [|y t IH]; intros c ND (P & O).
+  - apply Permutation_sym, Permutation_nil in P. subst. apply RO_refl.
+  - assert (Hy : In y c) by (eapply Permutation_in; [apply Permutation_sym; exact P|simpl; auto]).
+    destruct (in_split _ _ Hy) as (a & b & ->).
+    assert (NDt : NoDup (y :: t)) by (eapply Permutation_NoDup; eauto).
+    assert (Ny : ~ In y (a ++ b)) by (apply NoDup_remove_2; auto).
+    assert (NDab : NoDup (a ++ b)) by (eapply NoDup_remove_1; eauto).
+    assert (A : forall x, In x a -> indep x y).
+    { intros x Hx. destruct (indepb x y) eqn:E; [now apply indepb_indep|]. exfalso.
+      pose proof (O x y (before_split a b x y Hx) E) as B.
+      inversion B; subst.
+      - apply Ny. apply in_or_app. auto.
+      - inversion NDt; subst. apply before_in_r in H3. contradiction. }
+    eapply reorder_trans.
+    + apply (bubble (a ++ y :: b) y a b A). apply RO_refl.
+    + apply reorder_cons. apply IH; auto. split.
+      * apply Permutation_cons_inv with (a := y).
+        eapply Permutation_trans; [|exact P]. apply Permutation_middle.
+      * intros x z B D. pose proof (O x z (before_insert a b y x z B) D) as B'.
+        inversion B'; subst; auto.
+        exfalso. apply Ny. eapply before_in_l; eauto.
+Qed.
+
+(* ---------------------------------------------------------------- the operations of a graph run are pairwise distinct *)
+
+Lemma NoDup_app_intro {A} (l1 l2 : list A) :
+  NoDup l1 -> NoDup l2 -> (forall x, In x l1 -> In x l2 -> False) -> NoDup (l1 ++ l2).
+Proof.
+  induction l1 as [|a l1 IH]; simpl; intros N1 N2 D; auto.
+  inversion N1; subst. constructor.
+  - rewrite in_app_iff. intros [H|H]; [auto|]. eapply D; eauto.
+  - apply IH; auto. intros x H1' H2'. eapply D; eauto.
+Qed.
+
+Lemma NoDup_app_units (l1 l2 : list op) (U1 U2 : list ukey) :
+  NoDup l1 -> NoDup l2 ->
+  (forall o, In o l1 -> In (op_unit o) U1) -> (forall o, In o l2 -> In (op_unit o) U2) ->
+  (forall u, In u U1 -> In u U2 -> False) -> NoDup (l1 ++ l2).
+Proof.
+  intros N1 N2 H1 H2 D. apply NoDup_app_intro; auto.
+  intros x Hx1 Hx2. apply (D (op_unit x)); auto.
+Qed.
+
+Lemma stage_ops_NoDup (F : gnode -> list op * bool) st :
+  NoDup (flat_map uids st) ->
+  (forall m, In m st -> NoDup (uids m) -> NoDup (fst (F m))) ->
+  (forall m o, In m st -> In o (fst (F m)) -> In (op_unit o) (uids m)) ->
+  NoDup (List.concat (map fst (map F st))).
+Proof.
+  induction st as [|m st IH]; simpl; intros N HN HU; [constructor|].
+  apply (NoDup_app_units _ _ (uids m) (flat_map uids st)).
+  - apply HN; auto. eapply NoDup_app_l; eauto.
+  - apply IH; [eapply NoDup_app_r; eauto| |]; intros; [apply HN|eapply HU]; eauto.
+  - intros o Ho. apply (HU m); auto.
+  - intros o Ho. apply in_concat in Ho. destruct Ho as (l & Hl & Hol).
+    rewrite map_map in Hl. apply in_map_iff in Hl. destruct Hl as (m' & <- & Hm').
+    apply in_flat_map. exists m'. split; [auto | apply (HU m'); auto].
+  - intros u H1 H2. eapply NoDup_app_disj; eauto.
+Qed.
+
+Lemma stages_ops_NoDup (F : gnode -> list op * bool) stages :
+  NoDup (stages_uids stages) ->
+  (forall st m, In st stages -> In m st -> NoDup (uids m) -> NoDup (fst (F m))) ->
+  (forall st m o, In st stages -> In m st -> In o (fst (F m)) -> In (op_unit o) (uids m)) ->
+  NoDup (List.concat (map (fun st => List.concat (map fst st)) (map (map F) stages))).
+Proof.
+  unfold stages_uids. induction stages as [|st stages IH]; simpl; intros N HN HU; [constructor|].
+  apply (NoDup_app_units _ _ (flat_map uids st) (flat_map (flat_map uids) stages)).
+  - apply stage_ops_NoDup; [eapply NoDup_app_l; eauto| |]; intros; [eapply HN|eapply HU]; eauto.
+  - apply IH; [eapply NoDup_app_r; eauto| |]; intros; [eapply HN|eapply HU]; eauto.
+  - intros o Ho. apply in_concat in Ho. destruct Ho as (l & Hl & Hol).
+    rewrite map_map in Hl. apply in_map_iff in Hl. destruct Hl as (m' & <- & Hm').
+    apply in_flat_map. exists m'. split; [auto | apply (HU st m'); auto].
+  - intros o Ho. apply in_concat in Ho. destruct Ho as (l & Hl & Hol).
+    rewrite map_map in Hl. apply in_map_iff in Hl. destruct Hl as (st' & <- & Hst').
+    apply in_concat in Hol. destruct Hol as (l2 & Hl2 & Hol2).
+    rewrite map_map in Hl2. apply in_map_iff in Hl2. destruct Hl2 as (m' & <- & Hm').
+    apply in_flat_map. exists st'. split; [auto|]. apply in_flat_map. exists m'. split; [auto|].
+    apply (HU st' m'); auto.
+  - intros u H1 H2. eapply NoDup_app_disj; eauto.
+Qed.
+
+Lemma stages_uids_app a b : stages_uids (a ++ b) = stages_uids a ++ stages_uids b.
+Proof. unfold stages_uids. apply flat_map_app. Qed.
+
+Lemma start_end_distinct (u : ukey) p (b : bool) : OOn u (start_timing_of p) <> OOn u (if b then TError else end_timing_of p).
+Proof.
+  intros E. injection E as E. pose proof (start_timing_is_start p) as S. rewrite E in S.
+  destruct b; [discriminate|]. now rewrite end_timing_is_end in S.
+Qed.
+
+Lemma graph_start_end_distinct (u : ukey) is_stream (b : bool) :
+  OOn u (graph_start is_stream) <> OOn u (if b then TError else graph_end is_stream).
+Proof. destruct is_stream, b; simpl; intros E; discriminate. Qed.
+
+(* the body of a graph run: start, the executed stages, end *)
+Lemma graph_body_NoDup is_stream g ok opts (F : gnode -> list op * bool) stages :
+  ~ In g (stages_uids stages) -> NoDup (stages_uids stages) ->
+  (forall st m, In st stages -> In m st -> snd (F m) = node_fails opts m) ->
+  (forall st m, In st stages -> In m st -> NoDup (uids m) -> NoDup (fst (F m))) ->
+  (forall st m o, In st stages -> In m st -> In o (fst (F m)) -> In (op_unit o) (uids m)) ->
+  NoDup (fst (graph_body is_stream g ok (map (map F) stages))).
+Proof.
+  intros Ng N Hf HN HU. unfold graph_body. destruct ok; simpl.
+  2:{ constructor; [simpl; intros [E|[]]; symmetry in E; revert E; apply (graph_start_end_distinct g is_stream true)|constructor; auto; constructor]. }
+  rewrite stages_body_exec. cbn [fst snd].
+  rewrite (exec_rs_map F (node_fails opts) stages Hf).
+  destruct (exec_st_prefix (node_fails opts) stages) as (rest & Erest).
+  set (ex := exec_st (node_fails opts) stages) in *.
+  assert (Nex : NoDup (stages_uids ex)) by (rewrite Erest, stages_uids_app in N; eapply NoDup_app_l; eauto).
+  assert (Hin : forall st, In st ex -> In st stages) by (intros st; apply exec_st_incl).
+  assert (NB : NoDup (List.concat (map (fun st => List.concat (map fst st)) (map (map F) ex)))).
+  { apply stages_ops_NoDup; auto; intros; [eapply HN|eapply HU]; eauto. }
+  assert (UB : forall o, In o (List.concat (map (fun st => List.concat (map fst st)) (map (map F) ex))) ->
+                 In (op_unit o) (stages_uids stages)).
+  { intros o Ho. apply in_concat in Ho. destruct Ho as (l & Hl & Hol).
+    rewrite map_map in Hl. apply in_map_iff in Hl. destruct Hl as (st' & <- & Hst').
+    apply in_concat in Hol. destruct Hol as (l2 & Hl2 & Hol2).
+    rewrite map_map in Hl2. apply in_map_iff in Hl2. destruct Hl2 as (m' & <- & Hm').
+    eapply in_stages_uids; eauto. }
+  constructor.
+  - rewrite in_app_iff. intros [H|[E|[]]].
+    + apply UB in H. simpl in H. contradiction.
+    + symmetry in E. revert E. apply graph_start_end_distinct.
+  - apply NoDup_app_intro; auto.
+    + constructor; auto. constructor.
+    + intros x Hx [<-|[]]. apply UB in Hx. simpl in Hx. contradiction.
+Qed.
+
+Lemma node_ops_NoDup is_stream n : forall parent opts,
+  NoDup (uids n) -> NoDup (fst (node_ops is_stream parent opts n)).
+Proof.
+  induction n as [uid key inf natives fails|uid key|uid key inf stages IH|uid key inf calls] using gnode_ind';
+    intros parent opts ND.
+  - simpl. constructor; [simpl; intros [E|[E|[]]]; discriminate|].
+    constructor; [simpl; intros [E|[]]; symmetry in E; revert E; apply start_end_distinct|]. constructor; auto. constructor.
+  - simpl. constructor; auto. constructor.
+  - cbn [node_ops fst]. cbn [uids] in ND. fold (stages_uids stages) in ND. inversion ND as [|? ? Ng N']; subst.
+    constructor.
+    + intros H. apply graph_body_in in H. destruct H as [[t E]|(st & m & Hs & Hm & Ho)]; [discriminate|].
+      apply node_ops_units in Ho. simpl in Ho. apply Ng. eapply in_stages_uids; eauto.
+    + apply (graph_body_NoDup is_stream uid _ (sub_opts key opts)); auto.
+      * intros; apply node_ops_fails.
+      * intros st m Hs Hm. apply (FF_in _ _ _ _ IH Hs Hm).
+      * intros st m o Hs Hm. apply node_ops_units.
+  - cbn [node_ops fst]. cbn [uids] in ND. inversion ND as [|? ? Ng N']; subst.
+    set (cu := fun c : ukey * info * N * bool => fst (fst (fst c))) in *.
+    assert (UC : forall o, In o (flat_map (call_ops is_stream uid) calls) -> In (op_unit o) (map cu calls)).
+    { intros o Ho. apply in_flat_map in Ho. destruct Ho as (c & Hc & Ho). apply in_map_iff. exists c. split; auto.
+      destruct c as [[[c1 cinf] natives] fails]. simpl in Ho. destruct Ho as [<-|[<-|[<-|[]]]]; reflexivity. }
+    assert (NC : NoDup (flat_map (call_ops is_stream uid) calls)).
+    { clear Ng UC ND. induction calls as [|c calls IHc]; simpl; [constructor|].
+      simpl in N'. inversion N' as [|? ? Nc N'']; subst.
+      apply (NoDup_app_units _ _ [cu c] (map cu calls)).
+      - destruct c as [[[c1 cinf] natives] fails]. simpl.
+        constructor; [simpl; intros [E|[E|[]]]; discriminate|].
+        constructor; [simpl; intros [E|[]]; symmetry in E; revert E; apply start_end_distinct|]. constructor; auto. constructor.
+      - apply IHc; auto.
+      - intros o Ho. destruct c as [[[c1 cinf] natives] fails]. simpl in Ho.
+        destruct Ho as [<-|[<-|[<-|[]]]]; simpl; auto.
+      - intros o Ho. apply in_flat_map in Ho. destruct Ho as (c' & Hc' & Ho'). apply in_map_iff. exists c'. split; auto.
+        destruct c' as [[[c1 cinf] natives] fails]. simpl in Ho'. destruct Ho' as [<-|[<-|[<-|[]]]]; reflexivity.
+      - intros u [<-|[]] H. auto. }
+    constructor; [simpl; intros [E|H]; [discriminate|]|].
+    { apply in_app_or in H. destruct H as [H|[E|[]]]; [|discriminate]. apply UC in H. simpl in H. contradiction. }
+    constructor.
+    { intros H. apply in_app_or in H. destruct H as [H|[E|[]]].
+      - apply UC in H. simpl in H. contradiction.
+      - symmetry in E. revert E. apply start_end_distinct. }
+    apply NoDup_app_intro; auto.
+    + constructor; auto. constructor.
+    + intros x Hx [<-|[]]. apply UC in Hx. simpl in Hx. contradiction.
+Qed.
+
+Theorem graph_ops_NoDup is_stream g ginf opts stages :
+  NoDup (g :: stages_uids stages) -> NoDup (graph_ops is_stream g ginf opts stages).
+Proof.
+  intros N. inversion N as [|? ? Ng N']; subst. unfold graph_ops. constructor.
+  - intros H. apply graph_body_in in H. destruct H as [[t E]|(st & m & Hs & Hm & Ho)]; [discriminate|].
+    apply node_ops_units in Ho. simpl in Ho. apply Ng. eapply in_stages_uids; eauto.
+  - apply (graph_body_NoDup is_stream g _ opts); auto.
+    + intros; apply node_ops_fails.
+    + intros st m Hs Hm. apply node_ops_NoDup.
+    + intros st m o Hs Hm. apply node_ops_units.
+Qed.
+
+(* the engine theorem for every linearisation of the causal order of the canonical schedule *)
+Theorem linearisation_unit_logs w is_stream g ginf opts stages t :
+  NoDup (g :: stages_uids stages) ->
+  linearisation (graph_ops is_stream g ginf opts stages) t ->
+  forall e, In e (graph_table is_stream g ginf opts stages) ->
+    filter (of_unit (ue_unit e)) (st_log (run_script true w t)) = uexp_events w e.
+Proof.
+  intros N L. apply (eager_unit_logs w is_stream g ginf opts stages (graph_ops is_stream g ginf opts stages) t N).
+  - apply graph_ops_is_a_schedule.
+  - apply linearisation_reorder; auto. now apply graph_ops_NoDup.
+Qed.
+
+(* ---------------------------------------------------------------- ... and every reordering is a linearisation *)
+
+Lemma indep_indepb x y : indep x y -> indepb x y = true.
+Proof.
+  unfold indepb, indep. intros (NU & Cx & Cy). rewrite !andb_true_iff, negb_true_iff, N.eqb_neq.
+  split; [split; auto|].
+  - destruct (op_creates x) as [u|]; auto. rewrite negb_true_iff.
+    destruct (existsb (N.eqb u) (op_reads y)) eqn:E; auto. apply existsb_eqb_In in E. exfalso. eapply Cx; eauto.
+  - destruct (op_creates y) as [u|]; auto. rewrite negb_true_iff.
+    destruct (existsb (N.eqb u) (op_reads x)) eqn:E; auto. apply existsb_eqb_In in E. exfalso. eapply Cy; eauto.
+Qed.
+
+Lemma before_swap {A} (a b : list A) x y p q :
+  before (a ++ x :: y :: b) p q -> before (a ++ y :: x :: b) p q \/ (p = x /\ q = y).
+Proof.
+  induction a as [|h a IH]; simpl; intros H.
+  - inversion H as [l p' q' Hin|h' l p' q' Hb]; subst.
+    + destruct Hin as [<-|Hin]; [right; auto|]. left. apply bf_skip. now apply bf_here.
+    + inversion Hb as [l p' q' Hin|h' l p' q' Hb']; subst.
+      * left. apply bf_here. simpl. auto.
+      * left. apply bf_skip. now apply bf_skip.
+  - inversion H as [l p' q' Hin|h' l p' q' Hb]; subst.
+    + left. apply bf_here. rewrite in_app_iff in *. simpl in *. tauto.
+    + destruct (IH Hb) as [B|E]; auto. left. now apply bf_skip.
+Qed.
+
+Theorem reorder_linearisation c t : reorder c t -> linearisation c t.
+Proof.
+  induction 1 as [l|l a x y b Hr (P & O) I].
+  - split; auto.
+  - split.
+    + eapply Permutation_trans; [exact P|]. apply Permutation_app_head. apply perm_swap.
+    + intros p q B D. destruct (before_swap a b x y p q (O p q B D)) as [B'|(-> & ->)]; auto.
+      rewrite (indep_indepb _ _ I) in D. discriminate.
 Qed.
